@@ -29,7 +29,7 @@ if REPO not in sys.path:
 COQ_TRUSTED_BASE = [
     "Coq 8.16.1 kernel (coqc, full .vo build; vm_compute used for finite obligations and witnesses; no native_compute)",
     "axioms: none declared by the development; Print Assumptions output per theorem is in coverage.assumptions_report",
-    "translators tools/gen_tables.py, tools/gen_static.py (regenerate coq/gen/*.v from /repo on every run)",
+    "translators tools/gen_tables.py, tools/gen_static.py, tools/gen_state.py (regenerate coq/gen/*.v from /repo on every run)",
     "extraction with ExtrOcamlBasic only (bool, option, unit, list, prod, sumbool, sumor mapped to OCaml's; andb/orb inlined); no Extract Constant / Extract Inductive of our own; OCaml 4.13.1; ocaml/*_driver.ml",
     "correspondence check (differential testing of the hand-written model parts against CPython running /repo)",
     "modelled, not verified: CPython builtins and re engine, socket/ssl behaviour (recv returns a non-empty prefix or times out), reference server standing for real servers",
@@ -76,7 +76,7 @@ class Lock:
 def sync_generated():
     """Run the translators on the current working tree (only rewrites changed files)."""
     out = []
-    for tool in ("gen_tables.py", "gen_static.py"):
+    for tool in ("gen_tables.py", "gen_static.py", "gen_state.py"):
         path = os.path.join(VERIF, "tools", tool)
         if not os.path.exists(path):
             continue
@@ -301,6 +301,24 @@ class Report:
         return path
 
 
+def _name_at(relpath, line):
+    """Name of the theorem / definition enclosing a line of a Coq file (for readable reports)."""
+    try:
+        lines = open(os.path.join(COQ, relpath), errors="replace").read().split("\n")[:int(line)]
+    except OSError:
+        return "?"
+    for l in reversed(lines):
+        m = re.match(r"\s*(?:Theorem|Lemma|Example|Corollary|Definition|Fixpoint)\s+([A-Za-z0-9_']+)", l)
+        if m:
+            return m.group(1)
+    return "?"
+
+
+def _where(log):
+    m = re.findall(r"File \"\./([^\"]+)\", line (\d+)", log)
+    return ", ".join("%s:%s (%s)" % (f, l, _name_at(f, l)) for f, l in m[:3])
+
+
 def prepare(report, pid, coq_targets, drivers):
     """sync + build + obligations for one property. Broken steps are recorded, not raised."""
     with Lock():
@@ -312,8 +330,7 @@ def prepare(report, pid, coq_targets, drivers):
             coq_make(list(coq_targets) + ["props/%s.vo" % pid])
         except BuildError as e:
             # find which file failed
-            m = re.findall(r"File \"\./([^\"]+)\", line (\d+)", e.log)
-            report.broke("coq build: %s" % (", ".join("%s:%s" % x for x in m[:3]) or e.what), e.log[-4000:])
+            report.broke("coq build: %s" % (_where(e.log) or e.what), e.log[-4000:])
         ok_drivers = True
         for d in drivers:
             try:
@@ -339,8 +356,7 @@ def prepare(report, pid, coq_targets, drivers):
                                open(src).read(), flags=re.M) if os.path.exists(src) else []
             report.obligations = names
             report.discharged = []
-            m = re.findall(r"File \"\./([^\"]+)\", line (\d+)", e.log)
-            report.broke("theorems of props/%s.v (%s)" % (pid, ", ".join("%s:%s" % x for x in m[:3])), e.log[-4000:])
+            report.broke("theorems of props/%s.v (%s)" % (pid, _where(e.log)), e.log[-4000:])
     return ok_drivers
 
 
